@@ -298,6 +298,9 @@ def judge_c17(case, res):
 # =====================================================================
 # C18
 # =====================================================================
+DICT_SIZES = ["4KiB", "6KiB", "12KiB", "64KiB", "96KiB", "65537", "100000", "1MiB", "1536KiB", "3MiB", "5MiB", "2200000"]
+
+
 def c18_cases(rng, n, thorough):
     cases = []
     classes = ["text", "sparse", "random", "zeros", "sparse", "sparse_tail"]
@@ -310,6 +313,11 @@ def c18_cases(rng, n, thorough):
         cargs = [rng.choice(["-0", "-1", "-2"])]
         if fmt == "lzma":
             cargs.append("--format=lzma")
+            # every dictionary size the .lzma header can hold in xz's own files: 2^n and 2^n + 2^(n-1)
+            if rng.random() < 0.7:
+                cargs.append("--lzma1=preset=0,dict=%s,lc=%d,lp=%d,pb=%d" % (rng.choice(DICT_SIZES), *rng.choice([(3, 0, 2), (0, 0, 0), (4, 0, 4), (0, 4, 2), (1, 2, 3)])))
+        elif rng.random() < 0.25:
+            cargs.append("--lzma2=preset=0,dict=%s" % rng.choice(DICT_SIZES))
         elif rng.random() < 0.5:
             cargs += ["-T2", "--block-size=%d" % rng.choice([5000, 40000])]
         elif rng.random() < 0.3:
@@ -419,11 +427,17 @@ def c18_roundtrip_cases(rng, n):
         if rng.random() < 0.15:
             opts.append("--block-list=%s" % rng.choice(["1000,2000,0", "5000,", "100,200,300"]))
         fmt = "xz"
-        if rng.random() < 0.1:
+        if rng.random() < 0.2:
             opts = ["--format=lzma", "-%d" % rng.randint(0, 3)]
+            if rng.random() < 0.7:
+                opts = ["--format=lzma", "--lzma1=preset=%d,dict=%s" % (rng.randint(0, 2), rng.choice(DICT_SIZES))]
             fmt = "lzma"
+        elif rng.random() < 0.2:
+            opts = [o for o in opts if not o.startswith(("--lzma2", "-0", "-1", "-2", "-3", "-4", "-5", "-6"))] + ["--lzma2=preset=%d,dict=%s" % (rng.randint(0, 2), rng.choice(DICT_SIZES))]
         f = {"name": "r.dat", "class": rng.choice(["text", "sparse", "random", "zeros"]), "len": rng.choice([0, 1, 5000, 70000, 200000]), "seed": rng.getrandbits(30)}
-        cases.append({"kind": "c18rt", "tool": "xz", "files": [f], "args": ["-c"] + opts + ["r.dat"], "stdout": "pipe", "_fmt": fmt,
+        # step 1 writes r.dat.<fmt> next to the source, step 2 is the tool's own decompression of it
+        cases.append({"kind": "c18rt", "tool": "xz", "files": [f], "args": ["-k"] + opts + ["r.dat"], "stdout": "pipe", "_fmt": fmt,
+                      "then": ["-dc", "-T%d" % rng.choice([1, 1, 3]), "r.dat." + fmt],
                       "sched_seed": rng.getrandbits(30), "sched_preempt": rng.choice([50, 300, 900]), "sched_strategy": rng.choice([0, 1, 2]), "faults": []})
     return cases
 
@@ -442,9 +456,17 @@ def judge_c18rt(case, res):
             counters["runs.options_rejected"] = 1
             return None, [], counters
         return viol("compress-failed", "xz rejected or failed on an option set: exit %s" % res["rc"])
-    ref = xzsim.lib_decode(res["stdout"], "lzma" if case["_fmt"] == "lzma" else "auto")
+    ent = res["tree"].get("r.dat." + case["_fmt"])
+    if ent is None or "data" not in ent:
+        return viol("compress-failed", "xz exited 0 but wrote no r.dat.%s" % case["_fmt"])
+    ref = xzsim.lib_decode(ent["data"], "lzma" if case["_fmt"] == "lzma" else "auto")
     if ref["status"] != 1 or ref["out"] != plain:
         return viol("roundtrip", "decompressing what xz wrote gives status %d and %d bytes (input %d bytes)" % (ref["status"], len(ref["out"]), len(plain)))
+    s2 = res.get("step2")
+    if s2 is not None:
+        if s2["rc"] != 0 or s2.get("stdout") != plain:
+            return viol("roundtrip-tool", "xz -dc of the file xz itself wrote: exit %s, %d bytes (input %d bytes; the library decodes the file correctly): %s" % (s2["rc"], len(s2.get("stdout") or b""), len(plain), s2["stderr"][-200:]))
+        counters["runs.roundtrip_tool_decoded"] = 1
     return None, feats, counters
 
 
